@@ -6,7 +6,7 @@ CONSTANTS
   Libs = {"L1", "L2"}
   NH = 4
   MaxInst = 100
-INVARIANTS MappedWhileHeld ClosedOnce ClosedWhenUnheld FaithfulRead
+INVARIANTS MappedWhileHeld ClosedOnce ClosedWhenUnheld ResolvedWhereAsked FaithfulRead
 CONSTRAINT Track
 POSTCONDITION Report
 CHECK_DEADLOCK FALSE
